@@ -604,7 +604,12 @@ impl<'a> RecordBatchDecoder<'a> {
                     ))
                 }
             } else {
-                assert!(variadic_counts.is_empty());
+                if !variadic_counts.is_empty() {
+                    return Err(ArrowError::IpcError(format!(
+                        "Expected all variadic buffer counts to be consumed, {} left",
+                        variadic_counts.len()
+                    )));
+                }
                 RecordBatch::try_new_with_options(schema, columns, &options)
             }
         } else {
@@ -625,7 +630,12 @@ impl<'a> RecordBatchDecoder<'a> {
                     ))
                 }
             } else {
-                assert!(variadic_counts.is_empty());
+                if !variadic_counts.is_empty() {
+                    return Err(ArrowError::IpcError(format!(
+                        "Expected all variadic buffer counts to be consumed, {} left",
+                        variadic_counts.len()
+                    )));
+                }
                 RecordBatch::try_new_with_options(schema, children, &options)
             }
         }
